@@ -116,9 +116,11 @@ def wl_bloom(ctx, rng, case):
         probe = keys + ["never-added-1", b"never-added-2"]
         buf = bytearray(data)
         tb = cls.frombytes(buf, **bl.kw_hash(hf))
+        tb_loaded = bytes(tb)
+        ctx.check(tb_loaded == data, f"{what}: frombytes(bytearray) re-exports other bytes than it was given")
         for i in range(len(buf)):
             buf[i] ^= 0xFF  # the caller re-uses its buffer
-        ctx.check(bytes(tb) == data, f"{what}: a filter loaded from a bytearray changed when the caller overwrote that buffer (shared storage)")
+        ctx.check(bytes(tb) == tb_loaded, f"{what}: a filter loaded from a bytearray changed when the caller overwrote that buffer (shared storage)")
         ctx.count("aliasing_checks")
         # several export+load cycles in a row, alternating the channels
         t = s
